@@ -10,6 +10,9 @@ import traceback
 
 VERIF = os.path.dirname(os.path.dirname(os.path.abspath(__file__)))
 EVIDENCE = os.path.join(VERIF, 'evidence')
+if os.environ.get('VERIF_REPO') or os.environ.get('VERIF_COVDIR'):
+    # runs against a scratch tree (seeded changes, mutants) or in measurement mode never touch the evidence of /repo
+    EVIDENCE = os.path.join(VERIF, '.cache', 'evidence-scratch')
 REPLAYS = os.path.join(VERIF, 'replays')
 KNOWN = os.path.join(VERIF, 'known_findings.json')
 NPROC = int(os.environ.get('VERIF_JOBS', '16'))
